@@ -193,13 +193,19 @@ pub fn run(script: &[Line], prefix: &[usize], horizon: usize) -> Exec {
                 continue;
             }
             idle_polls += 1;
+            if s.expected_spawns > 0 {
+                // a thread is about to be born (its parent waits for it to register, asleep, with the baton): slow under
+                // load, but not blocked
+                asleep_polls = 0;
+                continue;
+            }
             if let Some(i) = s.current {
                 if i < s.threads.len() && !s.threads[i].finished && s.threads[i].park.is_none() {
                     match os_thread_state(s.threads[i].tid) {
-                        Some('S') | Some('D') => asleep_polls += 1,
+                        Some('S') => asleep_polls += 1,
                         _ => asleep_polls = 0,
                     }
-                    if asleep_polls >= 4 || idle_polls as u64 >= OUTSIDE_AFTER_SECS * 40 {
+                    if asleep_polls >= 8 || idle_polls as u64 >= OUTSIDE_AFTER_SECS * 40 {
                         s.threads[i].outside = true;
                         s.current = None;
                         outside_marks += 1;
